@@ -72,11 +72,12 @@ type c12Server struct {
 	pongAt   []time.Time // when a pong was written (under mu)
 	pingAt   []time.Time // when a ping arrived (under mu)
 	// authentication (tcp.authentificate -> nonce -> complete) and the latest query
-	auths   atomic.Int64 // completions with a valid signature
-	badAuth atomic.Int64
-	nq      int      // queries received (under mu)
-	last    c12Query // the latest one (under mu)
-	lastRaw []byte
+	needAuth bool         // clients authenticate: a connection abandoned before that counts as a failed attempt
+	auths    atomic.Int64 // completions with a valid signature
+	badAuth  atomic.Int64
+	nq       int      // queries received (under mu)
+	last     c12Query // the latest one (under mu)
+	lastRaw  []byte
 }
 
 type c12Ln struct {
@@ -94,15 +95,25 @@ type c12Ln struct {
 	// 2 = the first bytes of the handshake answer and nothing more, 3 = handshake
 	// answered, then silence (nothing is ever written again).  A held connection
 	// that the client gives up is recorded in refusedAt.
-	hs  atomic.Int32
-	all []*c12Conn
+	hs atomic.Int32
+	// authentication of connections accepted from now on: 1 = tcp.authentificate is
+	// never answered, 3 = answered with two nonce packets back to back, the first malformed
+	authHole atomic.Int32
+	// the server stops reading: the client's writes fill the socket buffers and block
+	stall atomic.Bool
+	// the handshake answer is delayed by this many milliseconds
+	hsDelay atomic.Int32
+	authAt  []time.Time // verified tcp.authentificationComplete
+	all     []*c12Conn
 }
 
 type c12Conn struct {
-	c    net.Conn
-	tx   cipher.Stream
-	wmu  sync.Mutex
-	mute bool // writes are dropped
+	c      net.Conn
+	tx     cipher.Stream
+	wmu    sync.Mutex
+	mute   bool        // writes are dropped
+	closed atomic.Bool // the read loop has ended: the client (or close()) ended the connection
+	authed atomic.Bool
 }
 
 func newC12Server(nconn int) (*c12Server, error) {
@@ -221,6 +232,9 @@ func (l *c12Ln) serve(c net.Conn) {
 	l.mu.Lock()
 	l.all = append(l.all, fc)
 	l.mu.Unlock()
+	if d := l.hsDelay.Load(); d > 0 {
+		time.Sleep(time.Duration(d) * time.Millisecond)
+	}
 	if err := fc.send(nil); err != nil { // the empty packet that completes the handshake
 		return
 	}
@@ -232,7 +246,19 @@ func (l *c12Ln) serve(c net.Conn) {
 	l.mu.Unlock()
 	rd := bufio.NewReader(c)
 	var clientNonce, serverNonce []byte
+	authHole := l.authHole.Load()
+	defer func() {
+		fc.closed.Store(true)
+		if s.needAuth && !fc.authed.Load() {
+			l.mu.Lock()
+			l.refusedAt = append(l.refusedAt, time.Now())
+			l.mu.Unlock()
+		}
+	}()
 	for {
+		for l.stall.Load() {
+			time.Sleep(time.Millisecond)
+		}
 		p, err := liteclient.ParsePacket(rd, rx)
 		if err != nil {
 			return
@@ -254,6 +280,14 @@ func (l *c12Ln) serve(c net.Conn) {
 			s.last, s.lastRaw = q, data
 			s.mu.Unlock()
 		case c12MagicAuth:
+			if authHole == 1 {
+				continue
+			}
+			if authHole == 3 {
+				bad := make([]byte, 4, 40)
+				binary.LittleEndian.PutUint32(bad, c12MagicAuthNonce)
+				fc.send(c12Align(append(append(bad, 255), make([]byte, 32)...)))
+			}
 			clientNonce = append([]byte{}, c12DecodeBytes(p.Payload[4:])...)
 			serverNonce = make([]byte, 32)
 			rand.Read(serverNonce)
@@ -268,6 +302,10 @@ func (l *c12Ln) serve(c net.Conn) {
 				sig := c12DecodeBytes(p.Payload[36:])
 				if len(sig) == ed25519.SignatureSize && ed25519.Verify(key, append(append([]byte{}, clientNonce...), serverNonce...), sig) {
 					s.auths.Add(1)
+					fc.authed.Store(true)
+					l.mu.Lock()
+					l.authAt = append(l.authAt, time.Now())
+					l.mu.Unlock()
 				} else {
 					s.badAuth.Add(1)
 				}
@@ -323,6 +361,42 @@ func (fc *c12Conn) send(payload []byte) error {
 	if fc.mute {
 		return nil
 	}
+	fc.tx.XORKeyStream(b, b)
+	_, err = fc.c.Write(b)
+	return err
+}
+
+// open counts the connections with a completed handshake that nobody has ended yet
+func (l *c12Ln) open() int {
+	l.mu.Lock()
+	defer l.mu.Unlock()
+	n := 0
+	for _, fc := range l.all {
+		if fc.tx != nil && !fc.closed.Load() {
+			n++
+		}
+	}
+	return n
+}
+
+// sendBroken writes a frame that ParsePacket must reject: 0 = wrong checksum,
+// 1 = length below the minimum of 64, 2 = length above the maximum of 8 MiB
+func (fc *c12Conn) sendBroken(v int) error {
+	p, err := liteclient.NewPacket(make([]byte, 24))
+	if err != nil {
+		return err
+	}
+	b := liteclient.VerifMarshalPacket(p)
+	switch v % 3 {
+	case 0:
+		b[len(b)-1] ^= 0x55
+	case 1:
+		binary.LittleEndian.PutUint32(b, 10)
+	default:
+		binary.LittleEndian.PutUint32(b, 9<<20)
+	}
+	fc.wmu.Lock()
+	defer fc.wmu.Unlock()
 	fc.tx.XORKeyStream(b, b)
 	_, err = fc.c.Write(b)
 	return err
@@ -481,17 +555,26 @@ type c12Env struct {
 	tag   [8]byte
 }
 
-func newC12Env(nconn int, D time.Duration) (*c12Env, error) {
+func newC12Env(nconn int, D time.Duration) (*c12Env, error) { return newC12EnvAuth(nconn, D, nil) }
+
+// with an auth key the connections authenticate (tcp.authentificate -> nonce -> complete)
+func newC12EnvAuth(nconn int, D time.Duration, authKey ed25519.PrivateKey) (*c12Env, error) {
 	c12Quiet()
 	srv, err := newC12Server(nconn)
 	if err != nil {
 		return nil, err
 	}
+	srv.needAuth = authKey != nil
 	e := &c12Env{srv: srv, D: D}
 	rand.Read(e.tag[:])
 	for k := 0; k < nconn; k++ {
 		ctx, cancel := context.WithTimeout(context.Background(), 5*time.Second)
-		conn, err := liteclient.VerifC12Dial(ctx, srv.pub, srv.lns[k].ln.Addr().String())
+		var conn *liteclient.Connection
+		if authKey != nil {
+			conn, err = liteclient.VerifC12DialAuth(ctx, srv.pub, srv.lns[k].ln.Addr().String(), authKey)
+		} else {
+			conn, err = liteclient.VerifC12Dial(ctx, srv.pub, srv.lns[k].ln.Addr().String())
+		}
 		cancel()
 		if err != nil {
 			srv.close()
